@@ -1,6 +1,6 @@
 (* C05: proofs about the OBJ line-level model (Formats/Obj.v). *)
-From PF Require Import Base.Bytes Formats.Obj.
 From Coq Require Import String.
+From PF Require Import Base.Bytes Formats.Obj.
 Open Scope nat_scope.
 
 Definition read := read_gen cfg_full.
@@ -127,5 +127,5 @@ Lemma corner_ok_mono a b c a' b' c' x : a <= a' -> b <= b' -> c <= c' ->
   corner_ok a b c x = true -> corner_ok a' b' c' x = true.
 Proof.
   destruct x as [[v t] n]. unfold corner_ok. rewrite !andb_true_iff. intros ? ? ? [[? ?] ?].
-  eauto using idx_ok_mono, oidx_ok_mono.
+  repeat split; eauto using idx_ok_mono, oidx_ok_mono.
 Qed.
